@@ -458,7 +458,7 @@ pub fn run(rep: &Report) {
          clone-and-continue); after every step the return value (exact expected-type error on a type clash) and the \
          complete observable state (get_value of every name, iter_variables, iter_variable_names, call_function, \
          builtin switch, also through evaluation) equal the map model; originals left behind by clone stay unchanged. \
-         (b) random histories of up to 60 operations over names {a,b,c,ä} and pool values. Non-trivial: a history with \
+         (b) histories binding 1..400 distinct variables of all six types at once (sizes around typical capacities), with type clashes, overwrites, op-assignments, a clone and a clear afterwards. (c) random histories of up to 60 operations over names {a,b,c,ä} and pool values. Non-trivial: a history with \
          a failed assignment after a successful one, an assignment changing a variable's type after clear, or an \
          op-assignment changing the type.",
     );
@@ -489,6 +489,56 @@ pub fn run(rep: &Report) {
     rep.add_extra("operations_per_state", json!(n_ops));
     rep.add_extra("states", json!(n_states * 2));
     rep.add_extra("transitions", json!(n_states * 2 * n_ops));
+    // many variables: n distinct names bound at once (n around typical capacities), of all six
+    // types, then type clashes / same-type overwrites / op-assignments on early, late and middle
+    // names, a clone, one of the three clears, re-binding with other types — everything observed
+    // after every step, with the builtin switch on or off and a context function present or not
+    let sizes = refmodel::gen::SCALE_SIZES;
+    common::enumerate(rep, "many-variables", sizes.len() as u64 * 12, 8, &|i, l| {
+        let n = sizes[(i % sizes.len() as u64) as usize];
+        let variant = i / sizes.len() as u64;
+        let names: Vec<String> = (0..n).map(|k| format!("v{}", k)).collect();
+        let val = |k: usize, shift: usize| -> RV {
+            match (k + shift) % 6 {
+                0 => RV::Int(k as i64),
+                1 => RV::Float(k as f64 + 0.5),
+                2 => RV::Str(format!("s{}", k)),
+                3 => RV::Bool(k % 2 == 0),
+                4 => RV::Tuple(vec![RV::Int(k as i64), RV::Str("t".into())]),
+                _ => RV::Empty,
+            }
+        };
+        let mut setup = vec![Op::Toggle(variant % 2 == 1)];
+        if variant % 3 == 0 {
+            setup.push(Op::SetFunction("f".into(), UF::Tag(2)));
+        }
+        let mut ops: Vec<Op> = (0..n).map(|k| Op::SetValue(names[k].clone(), val(k, 0))).collect();
+        let picks = [0usize, n / 2, n - 1, 15.min(n - 1), 16.min(n - 1), 17.min(n - 1)];
+        for (j, k) in picks.iter().enumerate() {
+            // a value of another type (must fail and change nothing), then one of the same type
+            ops.push(Op::SetValue(names[*k].clone(), val(*k, 1 + j % 4)));
+            ops.push(Op::SetValue(names[*k].clone(), val(*k + 6, 0)));
+            ops.push(Op::EvalAssign(AssignOp::Set, names[*k].clone(), RV::Int(5)));
+            ops.push(Op::EvalAssign(AssignOp::Add, names[*k].clone(), RV::Int(1)));
+            ops.push(Op::GetValue(names[*k].clone()));
+        }
+        ops.push(Op::CloneAndContinue);
+        ops.push(Op::SetValue(names[n - 1].clone(), val(n - 1 + 6, 0)));
+        ops.push(match variant % 4 {
+            0 => Op::Clear,
+            1 => Op::ClearVariables,
+            2 => Op::ClearFunctions,
+            _ => Op::EvalRead(names[n / 2].clone()),
+        });
+        // after a clear every name may take any type again
+        for k in picks {
+            ops.push(Op::SetValue(names[k].clone(), val(k, 2)));
+            ops.push(Op::SetValue(names[k].clone(), val(k, 3)));
+        }
+        ops.push(Op::EvalRead(names[0].clone()));
+        l.label("history with many variables");
+        check_history(&setup, &ops, &names, &vec!["f".to_string(), "g".to_string()], false, l)
+    });
     let n = rep.tier.pick(60_000u64, 6_000_000);
     let (n4, f4) = names4();
     common::random_search(
